@@ -16,7 +16,8 @@ type treeEnt struct {
 	path  string
 	isDir bool
 	data  []byte
-	link  string // hard-link source (regular entries)
+	link  string // hard-link source (non-directory entries)
+	mode  uint32 // file-type and permission bits; 0: regular 0644 / directory 0755
 }
 
 type treeFS struct{ ents []*treeEnt } // entries in protocol order
@@ -37,6 +38,9 @@ func (f *treeFS) Walk(ctx context.Context, target string, fn gofs.WalkDirFunc) e
 		mode := uint32(0644)
 		if e.isDir {
 			mode = uint32(os.ModeDir) | 0755
+		}
+		if e.mode != 0 {
+			mode = e.mode
 		}
 		st := &types.Stat{Path: e.path, Mode: mode, Size: int64(len(e.data)), Linkname: e.link}
 		err := fn(e.path, &DirEntryInfo{Stat: st}, nil)
